@@ -16,6 +16,10 @@ class Unknown(Exception):
     pass
 
 
+class DepthExceeded(Unknown):
+    """the call nests deeper than the reader was told to follow (max_depth)"""
+
+
 class BreakEx(Exception):
     def __init__(self, value=(), label=None):
         self.value = value
@@ -2047,7 +2051,9 @@ class Interp:
                 dflt = self.facts.bodies.get("%s::%s" % (e["trait"], m_))
                 if not cands and dflt is not None:
                     return self.apply(dflt, [recv] + [self.ev(a, env, depth) for a in args[1:]], depth + 1)
-        if callee is None or depth >= self.max_depth:
+        if callee is not None and depth >= self.max_depth:
+            raise DepthExceeded("call to " + cal)
+        if callee is None:
             raise Unknown("call to " + cal)
         vals = [self.ev(a, env, depth) for a in args]
         return self.apply(callee, vals, depth + 1)
@@ -2271,7 +2277,9 @@ class Interp:
 
     def call_closure(self, c, vals, depth):
         body = self.facts.bodies.get(c.path)
-        if body is None or depth >= self.max_depth:
+        if body is not None and depth >= self.max_depth:
+            raise DepthExceeded("closure body " + str(c.path))
+        if body is None:
             raise Unknown("closure body " + str(c.path))
         env = ScopeEnv(c.env)
         params = body.get("params", [])[1:]
